@@ -5,6 +5,8 @@ import PV.C03.FScan
 import PV.C03.ErrConv
 import PV.C05.Thm
 import PV.Lexer.Lemmas
+import PV.C09.Pipeline   -- text → answer on the models (lexer model, filter, token conversion, PV.Prog.parseProgram)
+import PV.Prog.Thm       -- PV.Prog.parseProgramFuel_mono
 /-
   C03 — property theorems (string-literal side).  Helper lemmas live in `PV/C03/Lemmas.lean`; the
   models in `PV/C03/Escapes.lean`.  Each theorem says that a checked operation of the model — the
@@ -29,6 +31,10 @@ import PV.Lexer.Lemmas
   `lex_terminates`, `lex_no_panic` (+ `lex_none_iff_too_long`), `lex_err_offset`, `offset_arith_u32`.
   They follow from the per-step contract `PV.Lexer.step_ok` / `step_err` (`PV/Lexer/Lemmas.lean`) by
   the fuel induction of `PV/C03/LexGlobal.lean`.
+
+  Lexer + parser, end to end on the models (last section): `lex_parse_total_model` — the pipeline lexer model →
+  reference parser `PV.Prog.parseProgram` (`PV.Pipeline.parseText`) returns a tree, a rejection or a lexical error with
+  its offset inside the input; never a panic, never out of fuel on the lexer side; a tree is stable under more parser fuel.
 -/
 namespace PV.C03
 
@@ -669,5 +675,88 @@ example : reports [(7, "Name", 8), (9, "Equal", 10), (10, "Newline", 10)] none (
   decide
 end
 end Lexer
+
+/-! ## lexing and parsing are total: the pipeline of the models
+
+  `PV.Pipeline.parseText conv cfg mode start src` (lean/PV/C09/Pipeline.lean) = lexer model from start offset `start`,
+  the trivia filter, the token conversion `conv` (a parameter that cannot see positions, as in
+  `PV.C08.layout_tree_invariant`), the reference parser for whole programs `PV.Prog.parseProgram` with the driver's fuel
+  `fuelFor`; `parseTextFuel extra` gives the parser `extra` more fuel. -/
+
+section Total
+open PV.Lexer PV.Pipeline
+
+/-- **Lexing and parsing are total** (model level): for every token conversion, lexer configuration with sane Unicode
+    tables, mode, start offset and source text that fits the 32-bit offset space behind the start offset, the pipeline
+    answers with
+    * a tree — and then every larger parser fuel gives the same tree (`PV.Prog.parseProgramFuel_mono`), or
+    * a rejection (the text lexes, the reference parser rejects the token stream), or
+    * the first lexical error, which is not the pseudo error `panic` and whose offset lies between the start offset and
+      the end of the input (`lex_err_offset`);
+    never `panic` (`lex_no_panic`) and never `lexOutOfFuel` (`lex_terminates`).
+    What is NOT claimed: that a rejection is never an out-of-fuel artefact of the reference parser
+    (`PV.Prog.parseProgram_fuel_adequate_full`, stated there, exercised by every PROG request). -/
+theorem lex_parse_total_model (conv : Conv) (cfg : Cfg) (hs : cfg.up.Sane) (mode : PV.Lexer.Mode) (start : Nat)
+    (src : List Nat) (hfit : start + utf8Len src ≤ u32Max) :
+    (∃ m, parseText conv cfg mode start src = .tree m ∧
+        ∀ extra, parseTextFuel extra conv cfg mode start src = .tree m) ∨
+    parseText conv cfg mode start src = .rejected ∨
+    (∃ kind off, parseText conv cfg mode start src = .lexError kind off ∧ kind ≠ .panic ∧
+        start ≤ off ∧ off ≤ start + utf8Len src) := by
+  obtain ⟨hsome, hnp⟩ := lex_no_panic cfg hs mode start src hfit
+  cases hl : lex cfg mode start src with
+  | none => simp [hl] at hsome
+  | some out =>
+    have hfuel := lex_terminates cfg hs mode start src out hl
+    unfold parseText parseTextFuel answerOf
+    rw [hl]
+    cases hf : out.fin with
+    | outOfFuel => exact absurd hf hfuel
+    | err kind c b =>
+      right; right
+      refine ⟨kind, b, by simp [answerOfFuel, hf], ?_, (lex_err_offset cfg hs mode start src out hl kind c b hf).2⟩
+      intro hk; subst hk; exact hnp out hl c b hf
+    | eof =>
+      simp only [answerOfFuel, hf]
+      cases hp : parserInput conv out.toks with
+      | none => right; left; rfl
+      | some ts =>
+        simp only []
+        cases hm : PV.Prog.parseProgramFuel
+            (PV.Prog.fuelFor ((PV.Prog.eraseSpans ts).map PV.Prog.PTok.toTok) + 0) (progMode mode)
+            (PV.Prog.eraseSpans ts) with
+        | none => right; left; rfl
+        | some m =>
+          left
+          refine ⟨m, rfl, fun extra => ?_⟩
+          rw [PV.Prog.parseProgramFuel_mono (progMode mode) (PV.Prog.eraseSpans ts) m (by omega) hm]
+
+/-- in particular the answer is never a panic and never "lexer out of fuel" -/
+theorem lex_parse_never_panics (conv : Conv) (cfg : Cfg) (hs : cfg.up.Sane) (mode : PV.Lexer.Mode) (start : Nat)
+    (src : List Nat) (hfit : start + utf8Len src ≤ u32Max) :
+    parseText conv cfg mode start src ≠ .panic ∧ parseText conv cfg mode start src ≠ .lexOutOfFuel := by
+  rcases lex_parse_total_model conv cfg hs mode start src hfit with ⟨m, h, _⟩ | h | ⟨kd, off, h, _⟩ <;>
+    rw [h] <;> exact ⟨fun hh => Answer.noConfusion hh, fun hh => Answer.noConfusion hh⟩
+
+/-- the three kinds of answer occur (the hypotheses hold for `upAscii`, offset 7): `x = 1⏎` — a tree; `x =⏎` — rejected;
+    `x $` — a lexical error at byte 10 -/
+example : parseText sampleConv ⟨false, upAscii⟩ .module 7 [120, 32, 61, 32, 49, 10] =
+      .tree (.module [.assign [.name [120]] (.const (.int 1))]) ∧
+    parseText sampleConv ⟨false, upAscii⟩ .module 7 [120, 32, 61, 10] = .rejected ∧
+    parseText sampleConv ⟨false, upAscii⟩ .module 7 [120, 32, 36] = .lexError (.unrecognizedToken 36) 10 := by
+  have h1 : lex ⟨false, upAscii⟩ .module 7 [120, 32, 61, 32, 49, 10] = some
+      ⟨[⟨.name [120], 0, 1, 7, 8⟩, ⟨.op .Equal, 2, 3, 9, 10⟩, ⟨.int 1, 4, 5, 11, 12⟩, ⟨.newline, 5, 6, 12, 13⟩],
+       .eof, 13⟩ := by decide +kernel
+  have h2 : lex ⟨false, upAscii⟩ .module 7 [120, 32, 61, 10] = some
+      ⟨[⟨.name [120], 0, 1, 7, 8⟩, ⟨.op .Equal, 2, 3, 9, 10⟩, ⟨.newline, 3, 4, 10, 11⟩], .eof, 11⟩ := by
+    decide +kernel
+  have h3 : lex ⟨false, upAscii⟩ .module 7 [120, 32, 36] = some
+      ⟨[⟨.name [120], 0, 1, 7, 8⟩], .err (.unrecognizedToken 36) 3 10, 10⟩ := by decide +kernel
+  refine ⟨?_, ?_, ?_⟩ <;> unfold parseText
+  · rw [h1]; rfl
+  · rw [h2]; rfl
+  · rw [h3]; rfl
+
+end Total
 
 end PV.C03
